@@ -670,7 +670,7 @@ def spec_table_alloc_3(ctx, make_exe):
 
 
 def spec_table_alloc_span(ctx, make_exe):
-    return _run_table(ctx, make_exe, [[2], [1, 1]], 3, 6, _post_table)
+    return _run_table(ctx, make_exe, [[2], [1, 1]], 2, 5, _post_table)
 
 
 def spec_table_alloc_span_only(ctx, make_exe):
@@ -1365,6 +1365,8 @@ def spec_nth_parse(ctx, make_exe):
             sb = VOpaque("css::parser::Sign", "b_sign")
             dsa = VAgg("DigitStr", None, [va])
             dsb = VAgg("DigitStr", None, [vb])
+            # the signs are inputs whether or not the closure looks at them
+            da_, db_ = exe.discriminant(sa).e, exe.discriminant(sb).e
             if has_a and both:
                 arg = VAgg("tuple", None, [sa, VAgg("Option::Some", "Some", [dsa]) if a_given else VAgg("Option::None", "None", []),
                                            VOpaque("&str", "n"), VUnit(), sb, dsb])
@@ -1417,7 +1419,7 @@ def spec_nth_parse(ctx, make_exe):
                     post(exe, s2, z3.BoolVal(False), f.name, "the closure returns a coefficient pair (or an error value)")
                     continue
                 a, b = val.fields
-                sgn = lambda name: z3.If(exe.inputs[name + ".discr"] == 0, z3.BitVecVal(1, 32), z3.BitVecVal(-1, 32)) if (name + ".discr") in exe.inputs else z3.BitVecVal(1, 32)
+                sgn = lambda name: z3.If((da_ if name == "a_sign" else db_) == 0, z3.BitVecVal(1, 32), z3.BitVecVal(-1, 32))
                 a32 = z3.Extract(31, 0, va.e) if a_given else z3.BitVecVal(1, 32)
                 b32 = z3.Extract(31, 0, vb.e)
                 if has_a and both:
@@ -4130,13 +4132,13 @@ ALL = [
          replay=replay_table_alloc),
     Spec("table_alloc_span_only", ["C06", "C03"], spec_table_alloc_span_only,
          functions=["render_table_tree (whole function)"],
-         bounds="one row with a single colspan=2 cell over 2 columns; cell size <= 3, table width <= 6",
+         bounds="one row with a single colspan=2 cell over 2 columns; cell size <= 2, table width <= 5",
          assumptions=["as table_alloc_2col"], replay=replay_table_alloc),
     Spec("table_alloc_3col", ["C06", "C02", "C01"], spec_table_alloc_3, tier="thorough",
          functions=["render_table_tree (whole function)"],
          bounds="1 row x 3 columns; cell size <= 2, table width <= 6", assumptions=["as table_alloc_2col"], replay=replay_table_alloc),
     Spec("table_alloc_colspan", ["C06", "C03", "C01"], spec_table_alloc_span, tier="thorough",
          functions=["render_table_tree (whole function)"],
-         bounds="2 rows over 2 columns, first row is one colspan=2 cell; cell size <= 3, table width <= 6",
+         bounds="2 rows over 2 columns, first row is one colspan=2 cell; cell size <= 2, table width <= 5",
          assumptions=["as table_alloc_2col"], replay=replay_table_alloc),
 ]
